@@ -440,3 +440,28 @@ def mutate(t, rng):
         if c == 9 and node[0] == "str":
             return set_at(t, p, ("str", rng.choice(["", node[1] + " ", node[1].lower(), node[1].upper(), "?" + node[1], node[1] + "::"]))), "string_edit"
     return t, "none"
+
+
+def has_dup(t):
+    if t[0] == "arr":
+        return any(has_dup(x) for x in t[1])
+    if t[0] == "obj":
+        ks = [k for k, _ in t[1]]
+        return len(set(ks)) != len(ks) or any(has_dup(v) for _, v in t[1])
+    return False
+
+
+def dup_in_ignored_region(t):
+    """duplicate keys inside a scope constraint or a link's `values`: serde buffers these objects (internally tagged /
+       untagged enums) and never looks into fields it ignores, so duplicates there are not always rejected; the model's
+       blanket rule (json_nodup) is not claimed faithful for such documents -> filtered on generation"""
+    if t[0] == "arr":
+        return any(dup_in_ignored_region(x) for x in t[1])
+    if t[0] == "obj":
+        for k, v in t[1]:
+            if k in ("principal", "action", "resource", "values"):
+                if has_dup(v):
+                    return True
+            elif dup_in_ignored_region(v):
+                return True
+    return False
